@@ -97,15 +97,6 @@ Theorem C07_result_type_forms : forall a r,
 Proof. exact binary_result_dtype_forms. Qed.
 Print Assumptions C07_result_type_forms.
 
-(* finding (repaired by fixes/C07_scalar_operand_value.diff): maximum / minimum / power / where converted a scalar operand of
-   another element type to the array's element type before the operation *)
-Theorem C07_scalar_operand_as_array_type_refuted :
-  exists (arr scal : dtype) (x k : Z),
-    int_cast (binary_result_dtype CastDefault Arith arr scal) (Z.max x k)
-    <> int_cast (binary_result_dtype CastDefault Arith arr scal) (Z.max x (int_cast arr k)).
-Proof. exact scalar_operand_as_array_type_refuted. Qed.
-Print Assumptions C07_scalar_operand_as_array_type_refuted.
-
 (* ---------- non-vacuity ---------- *)
 Definition iota7 (s : list Z) : operand Z := (s, fun i => horner 0 i s).
 Example C07_nonvacuous_binary :
@@ -125,6 +116,12 @@ Example C07_nonvacuous_forms :
   typed_binary CastDefault Z.mul I8 I8 100 2 = 200 /\ typed_binary CastSameKind Z.mul I8 I8 100 2 = -56
   /\ typed_binary (CastDtype I16) Z.add U8 U8 200 100 = 300 /\ typed_binary CastEquiv Z.sub U16 U16 200 300 = 65436.
 Proof. repeat split; reflexivity. Qed.
+(* regression (repaired in /repo d41ab70): a scalar operand of another element type is used as a value, not converted to the
+   array's element type: maximum(int8 element 1, int32 scalar 1000) = 1000, whereas converting the scalar first gives -24 *)
+Example C07_regression_scalar_operand :
+  typed_binary CastDefault Z.max I8 I32 1 1000 = 1000
+  /\ typed_binary CastDefault Z.max I8 I32 1 1000 <> typed_binary CastDefault Z.max I8 I32 1 (int_cast I8 1000).
+Proof. exact scalar_operand_is_a_value. Qed.
 Example C07_nonvacuous_dtype : promote_cxx I8 I8 = I32 /\ promote_cxx I32 U32 = U32 /\ promote_cxx U32 I64 = I64
   /\ promote_cxx I64 U64 = U64 /\ promote_cxx I64 F32 = F32 /\ result_dtype None Compare F64 I8 = Bool.
 Proof. repeat split; reflexivity. Qed.
